@@ -26,8 +26,16 @@ NonNeg(o) == \A f \in {"im", "inc", "coh", "abs", "incxs", "pen"} : o[f].k = "in
 HasData(ps) == \A i \in DOMAIN ps : ps[i].kind # "nodata"
 TablesOK(ps) == \A i \in DOMAIN ps : ps[i].kind = "table" => NodesIncreasing(ps[i].nodes)
 LamOK(e) == IF "E" \in DOMAIN e THEN Close(Mul(Sq(e.lam), e.E), KE, -13) ELSE TRUE      \* the wavelength witness for energy=
+\* an atom is served as "no data" only if the raw tables have none for it (raw is computed by the harness from the text of
+\* nsf.nsftable and density.element_densities, not by the library)
+RawOK(ps) == \A i \in DOMAIN ps : ("raw" \in DOMAIN ps[i] /\ ps[i].raw) => ps[i].kind # "nodata"
+RECURSIVE SumMnat(_)
+SumMnat(ps) == IF ps = <<>> THEN Zero ELSE Add(MulP(Head(ps).n, Head(ps).mnat, P12), SumMnat(Tail(ps)))
+\* density of the call: density=, or natural_density= converted by the ratio of actual to natural-abundance mass
+Rho(e) == IF "nd" \in DOMAIN e /\ ~IsZero(SumMnat(e.ps)) THEN Div(MulP(e.nd, SumM(e.ps), P12), SumMnat(e.ps), P12) ELSE e.rho
 ScatClause(ps, rho, lam, o) ==
-  IF ~HasData(ps) THEN (IF IsNoneOut(o) THEN "ok" ELSE "MissingDataGivesNone")
+  IF ~RawOK(ps) THEN "TabulatedAtomServedAsMissing"
+  ELSE IF ~HasData(ps) THEN (IF IsNoneOut(o) THEN "ok" ELSE "MissingDataGivesNone")
   ELSE IF IsNoneOut(o) THEN "DataGivesResult"
   ELSE IF IsZero(rho) \/ IsZero(SumM(ps)) THEN (IF IsVacuum(o) /\ o.pen.k = "inf" THEN "ok" ELSE "Vacuum")
   ELSE IF ~AllNum(o) THEN "OutputsAreNumbers"
@@ -157,7 +165,7 @@ D2OClause(e) ==
           ELSE "ok"
 Clause(e) ==
   CASE e.ev = "d2o" -> D2OClause(e)
-    [] e.ev = "scat" -> IF ~LamOK(e) THEN "WavelengthWitness" ELSE ScatClause(e.ps, e.rho, e.lam, e.out)
+    [] e.ev = "scat" -> IF ~LamOK(e) THEN "WavelengthWitness" ELSE ScatClause(e.ps, Rho(e), e.lam, e.out)
     [] e.ev = "rel" -> RelClause(e)
     [] e.ev = "conv" -> ConvClause(e)
     [] e.ev = "anchor" -> AnchorClause(e)
